@@ -2,6 +2,7 @@ import MW.Proto.Msgs
 import MW.Proto.Schema
 import MW.Staking.Effects
 import MW.Staking.Interface
+import MW.Inv.Reach
 /-!
 # C19 — Token-factory messages are correct for the target chain in both build variants
 
@@ -230,6 +231,45 @@ theorem repo_schema_matches_chain :
 
 /-- non-vacuity: a concrete mint in the miniwasm build -/
 example : (encodeMsg .miniwasm (.mint "c" "factory/c/stTIA" 500 "c")).map (·.1) = some "/miniwasm.tokenfactory.v1.MsgMint" := rfl
+
+/-- **"each batch submission a burn", for every message**: whatever message turns a Pending batch into a Submitted one is
+`SubmitBatch`, and its response carries the token-factory burn of exactly that batch's total by the contract from the
+contract's own balance (in either build the message is encoded from these four values, `burn_*` above).  No other handler
+— LiquidUnstake included — can submit a batch -/
+theorem submission_carries_burn (s s' : CState) (env : Env) (info : Info) (m : ExecMsg) (out : List SubMsg)
+    (hi : CInv s) (hx : execute s env info m = .ok (s', out)) (k : Nat) (b b' : Batch)
+    (hb : s.batches.find? k = some b) (hb' : s'.batches.find? k = some b')
+    (hs : b.status = .pending) (hs' : b'.status = .submitted) :
+    m = .submitBatch ∧ plain (.burn env.contract s.config.lstDenom b.total env.contract) ∈ out := by
+  have hkp : k = s.pendingId := by
+    have hk := (hi.keys k).mp (by simp [hb])
+    by_cases hlt : k < s.pendingId
+    · rcases hi.older k b hb hlt with ⟨h1, _⟩ | ⟨h1, _⟩ <;> (rw [hs] at h1; cases h1)
+    · omega
+  cases execute_batchChange hx with
+  | none m hbs _ =>
+    rw [hbs, hb] at hb'; cases hb'; rw [hs] at hs'; cases hs'
+  | unstake pb a isNew hpb _ hbs =>
+    rw [hbs, hkp, AMap.find?_insert_self] at hb'
+    cases hb'
+    rw [hkp, hpb] at hb; cases hb
+    simp only [grown] at hs'; rw [hs] at hs'; cases hs'
+  | submit batch unbond _ hpb _ _ _ _ _ hbs =>
+    refine ⟨rfl, ?_⟩
+    rw [hkp, hpb] at hb; cases hb
+    simp only [execute] at hx
+    obtain ⟨batch2, _, orc, _, hb2, _, _, _, _, _, _, hout⟩ := submitBatch_eff hx
+    rw [hpb] at hb2; cases hb2
+    rw [hout]; simp
+  | receive bid coin batch t _ _ _ hfind hst _ _ _ hbs =>
+    have hid : batch.id = bid := hi.idKey _ batch hfind
+    rw [hbs, hid] at hb'
+    by_cases hkb : bid = k
+    · subst hkb
+      rw [hfind] at hb; cases hb
+      rw [hs] at hst; cases hst
+    · rw [AMap.find?_insert_other _ _ _ _ (fun e => hkb e.symm), hb] at hb'
+      cases hb'; rw [hs] at hs'; cases hs'
 
 /-- the statements of this file quantify over every message the staking contract accepts: the `ExecuteMsg` the source
 declares (table regenerated from /repo's `msg.rs` on every run) has exactly the variants, fields and types of the
